@@ -9,6 +9,7 @@ CONSTANTS
   CtxMayExpire = FALSE
   ClientMayClose = FALSE
   HandlerMayClose = FALSE
+  StartMayFail = FALSE
   SeqRestart = FALSE
   Bug = "none"
   TrackAct = TRUE
